@@ -199,6 +199,9 @@ func run(t *tape.Tape, cfg sim.Config, listen bool) (res sim.Result) {
 	}
 	if listen && (cfg.Class == "all" || cfg.Class == "subset") && t.Chance(1, 4) {
 		r.multi = true
+		if t.Chance(1, 2) {
+			r.walkMax = 1 + t.Choose(2) // the listener in front of the recording one reads only the top of the stack
+		}
 		res.Stat("probe.multi_function_listener_factory", 1)
 	}
 	if t.Chance(1, 3) {
